@@ -33,7 +33,13 @@ def run(ctx, prog, res):
     sl = prog.impl_method_one("DateFilter", "next_change_hint", self_ty="[T]")
     sh = flow.shape(sl, 0)
     ok = re.fullmatch(r"Option::unwrap_or_else\(Iterator::min\(Iterator::map\(slice::iter\(p1\), closure\[p2, p3\]\)\), closure\[\]\)", sh) is not None
-    r1.check(ok, {"aggregation": "[T]", "shape": sh}, "C02.R1:agg:slice", "the hint of a selector list is not the minimum of its elements' hints over the whole list: %s" % sh, lib.where_of(sl))
+    # the same aggregation written as a loop: acc = None; for x in list { acc = Some(match acc { None => h(x), Some(a) => min(a, h(x)) }) }
+    H = r"(?:DateFilter)?::next_change_hint\(::next\(::into_iter\(slice::iter\(p1\)\)\)@Some\.0, p2, p3\)"
+    loop_form = re.fullmatch(r"Option::unwrap_or_else\(alt\(Option::None\{\} \| Option::Some\{0: alt\(%s \| cmp::min\(_\d+@Some\.0, %s\)\)\}\), closure\[\]\)" % (H, H), flow.shape(sl, 0, depth=9)) is not None
+    r1.check(ok or loop_form, {"aggregation": "[T]", "shape": sh if ok else "fold with cmp::min over every element"}, "C02.R1:agg:slice", "the hint of a selector list is not the minimum of its elements' hints over the whole list: %s" % sh, lib.where_of(sl))
+    if loop_form and not ok:
+        inner = [flow.shape(prog.fns[c], 0) for c in prog.closures(sl.id)]
+        r1.check(any(x == "Option::Some{0: NaiveDateTime::date(const:DATE_END)}" for x in inner), {"empty_list": "never (DATE_END)"}, "C02.R1:agg:slice-elements", "the empty list is not 'never': %s" % inner, lib.where_of(sl))
     if ok:
         cl = [prog.fns[c] for c in prog.closures(sl.id)]
         inner = [flow.shape(c, 0) for c in cl]
@@ -49,7 +55,28 @@ def run(ctx, prog, res):
             for g in ("YearRange", "MonthdayRange", "WeekRange", "WeekDayRange"):
                 if ("::" + g) in (c.get("self_ty") or ""):
                     groups.add(g)
-    r1.check(m is not None and m.group(1).count("::next_change_hint(") == 4 and len(groups) == 4 and not ADAPTORS.search(sh), {"aggregation": "DaySelector", "groups": sorted(groups)}, "C02.R1:agg:day-selector",
+    # any tree of minima (array + Iterator::min, Ord::min, cmp::min) whose leaves are exactly the four group hints
+    min_tree = False
+    try:
+        import terms
+        alts = [a_ for a_ in re.fullmatch(r"alt\((.*)\)", sh).group(1).split(" | ")] if sh.startswith("alt(") else [sh]
+        trees = [a_ for a_ in alts if "next_change_hint" in a_]
+        if len(trees) == 1 and all(a_ == "Option::Some{0: NaiveDateTime::date(const:DATE_END)}" for a_ in alts if a_ not in trees):
+            t_ = terms.parse(trees[0])
+            leaves_ = []
+            def walk(n):
+                if n[0] == "app" and n[1].split("::")[-1] == "min" and len(n[2]) == 2:
+                    walk(n[2][0]); walk(n[2][1])
+                elif n[0] == "app" and n[1].endswith("next_change_hint") and len(n[2]) == 3 and n[2][1:] == (("var", "p2"), ("var", "p3")) and n[2][0][0] == "var":
+                    leaves_.append(n[2][0][1])
+                else:
+                    raise terms.TermError("not a minimum of hints")
+            walk(t_)
+            min_tree = sorted(leaves_) == ["p1.monthday", "p1.week", "p1.weekday", "p1.year"]
+    except Exception:
+        min_tree = False
+    array_min = m is not None and m.group(1).count("::next_change_hint(") == 4
+    r1.check((array_min or min_tree) and len(groups) == 4 and not ADAPTORS.search(sh), {"aggregation": "DaySelector", "groups": sorted(groups), "form": "min over an array" if array_min else "tree of min()"}, "C02.R1:agg:day-selector",
              "the day selector's hint is not the minimum over the hints of all four selector groups: %s (groups %s)" % (sh[:200], sorted(groups)), lib.where_of(ds))
     check_reads(prog, r1, ds, DAY + "DaySelector", "next_change_hint")
     sh = flow.shape(oh_hint, 0)
